@@ -1,9 +1,9 @@
 prop(
     "C14",
-    quick=[("native", 16)],
-    thorough=[("native", 16), ("asan", 8), ("miri", 4)],
+    quick=[("native", 16), ("compat", 16)],
+    thorough=[("native", 16), ("asan", 8), ("miri", 4), ("compat", 16)],
     level="exploration",
-    min_evals={"quick": 10_000_000, "thorough": 350_000_000},
+    min_evals={"quick": 15_000_000, "thorough": 480_000_000},
     rule=(
         "manifest eContent assembled by the harness' own DER/BER writer: 0..2000 entries (classes 0 / 1 / 2-10 / 11-100 / 101-500 / 501-2000), "
         "file names from 9 valid shapes (plain, A-_9.CER style, 1-char stem, long stems up to the 1100-octet name, dash/underscore-only, digits-only, upper-case extension, key-identifier-like) "
@@ -33,7 +33,23 @@ prop(
         "Object case signatures: (path, relation @ position, accepted / rejected-for-name, entry-count class, CMS variant), (serde transport, relation @ position, entry-count class) and "
         "(validation path, EE window layout, instant of validation, relation, entry-count class, order of the returned times, equal to content() or not). "
         "A case signature of the first workload is (decode path, plan, name shape @ position, accepted / rejected-for-the-name, entry-count class, hash-length class, time order) for manifests and (base shape, entry-count class, name shape) for URI resolution and "
-        "(origin, hash relation, hash-length class, data length, unused bits) for verify; manifests rejected for a reason other than a name are trivial: counted in observations only."
+        "(origin, hash relation, hash-length class, data length, unused bits) for verify; manifests rejected for a reason other than a name are trivial: counted in observations only. "
+        "Third workload (c14_doors.rs; 6 400 / 128 000 cases native, 800 / 6 400 under ASan, 16 under Miri for the content doors): every door through which a Manifest or ManifestContent comes into being is fed the same "
+        "manifest from the independent encoder - 0..300 valid entries plus 0 (one case in five, control), 1 or 2-4 hostile names at first / middle / last / only position, half of them drawn from the shapes the family is about "
+        "(../x.cer, a/b.roa, NUL inside / after the extension, empty, 1100 octets with one slash, over-long names of 1 101 .. 70 000 octets that carry a slash, a chain of ../, a 4-letter extension at the very end or a NUL after a valid prefix, "
+        "absolute rsync URI, '..', two dots, no dot, space), the other half from all 36 hostile shapes; one hostile name in twelve is a BER constructed string; one control in ten lists a valid name of 1 101 .. 70 000 octets; "
+        "one case in ten has thisUpdate after nextUpdate. The eContent is wrapped into a CMS SignedData by the harness (plain three in four, else NULL digest parameter / sha256WithRSA / segmented eContent) and goes through: "
+        "ManifestContent::take_from via Mode::Der and Mode::Ber (Bytes and slice sources); Manifest::decode strict and relaxed (Bytes and slice sources); SignedObject::decode / decode_if_type / take_from strict and relaxed (rotating with the case) followed by decode_content(take_from); "
+        "<Manifest as Deserialize> fed the base64 text of the signed object (encoder of the harness, JSON text written by hand, no serialiser involved) through serde_json::from_str, from_str with escapes (\\u00XX, \\/), from_slice, from_reader, "
+        "from_value, inside an array and inside an option, and through all 12 transports of serde_tok (human-readable and compact x borrowed / transient / owned strings x structs as maps / sequences), one transport per case also with the text as a "
+        "byte token and wrapped in an option. Whatever a door hands out is judged by the same oracle as a decode result (names, len vs iter count, iter and iter_uris without panic - iter_uris is probed on its own when iter panicked -, URIs inside the base, "
+        "entries vs encoded, time order, verify), with the door in the signature (suffix :door-take-from-der / -ber, :door-manifest-decode-strict / -relaxed, :door-signed-object-strict- / -relaxed-decode-content, :door-serde-json, "
+        ":door-serde-human-readable-format, :door-serde-compact-format; panics as C14:panic:iter:door-...:<file:line>). A door that refuses is fine. Observations door:<door>:accepted|rejected:<valid|hostile|empty-stem> and "
+        "doors:<what is wrong in the model>:<refused-by-every-door | accepted-by-every-door | accepted-only-by:<doors>> record which doors accept what, doors:hostile-shape-refused-by-every-door:<shape> per name shape. "
+        "The five door groups of a case run one after the other on one thread, the group that goes first rotates, so every door is also used right after each other group has refused or accepted. "
+        "Door case signatures: (door incl. source / transport, name shape, accepted / rejected-for-the-name <reason>) and (door group, number of hostile names @ position, outcome, entry-count class). "
+        "Stage compat: the same binary built with the harness feature compat (= rpki-rs built with its own compat feature, which relaxes decoding for objects written by earlier versions); all three workloads run again, "
+        "the first two and the constructed hashes on a quarter of the native budget, the door workload in full (observation build:rpki-feature-compat:shards counts the shards of that build)."
     ),
     assumptions=[
         "name grammar taken from the property statement: [A-Za-z0-9_-]+ '.' [A-Za-z]{3}; an empty stem ('.roa'), which RFC 9286 forbids but the statement does not clearly, is counted (observation empty_stem_names_accepted), not asserted",
@@ -47,13 +63,17 @@ prop(
         "a returned content whose times differ from content() but are still ordered is counted, not asserted: the statement fixes the order, not the values; entries are asserted against what was encoded",
         "hash verification of list entries is only judged for entries that are the encoded entry of the same index (a list that differs from the encoded one is reported as such, once)",
         "Miri stage covers the content-only path (take_from, iter, iter_uris) without hashing or signatures",
+        "door workload: the expectation for what a door hands out never comes from another door; doors disagreeing on acceptance (strict doors refuse BER encodings, relaxed ones do not) is an observation. "
+        "A door refusing a manifest that is valid in the model is an observation (door:<door>:model-valid-but-rejected); a panic while a door decodes (not while its result is iterated or resolved) is left to C04 like in the other workloads",
+        "door workload: constructors that do not decode anything (ManifestContent::new, into_manifest) are not doors in the sense of the statement ('every manifest the library decodes') and are not judged",
+        "library behaviour that exists only under the crate's `compat` feature is observed in stage compat only (native build conventions, no sanitizer); the other stages see the build without it",
     ],
     level_text=(
         "Runtime oracle written from the property statement over generated manifests whose hostile names, entry counts, hash shapes, times and numbers are boundary-dense; "
         "the same workload is repeated under AddressSanitizer (including the aws-lc digest and the signed-object path) and, for the content-only path, under Miri. "
         "Exploration is the adequate level: the input space (all IA5 strings x list shapes) is unbounded, the risk is a missing or inconsistent check on one code path, which shape-directed generation reaches directly."
     ),
-    level_note="Sampled, not exhaustive: names are drawn from 45 shape classes and random strings; a hostile name outside these classes that slips through only one of the two decoders would be missed. Names related to the object are limited to the last segments, one directory / module segment and the authority of the three URIs in the EE certificate, their case variants and one-edit neighbours; 17 window layouts, three instants each. Evidence lists per-reason rejection counts so that acceptance/rejection of each class is visible.",
-    technique="runtime oracle over an independent DER/BER + CMS encoder; per-case EE certificates (window, SIA/CRLDP/AIA names) tie the file list and the manifest interval to the signed object, every entry point handing out a ManifestContent (decode, views, re-encoding, serde transports, validate / validate_at, SignedObject::process) is held to the same laws; ASan and Miri on the same workload",
+    level_note="Sampled, not exhaustive: names are drawn from 45 shape classes and random strings; a hostile name outside these classes that slips through only one of the two decoders would be missed. Names related to the object are limited to the last segments, one directory / module segment and the authority of the three URIs in the EE certificate, their case variants and one-edit neighbours; 17 window layouts, three instants each. Evidence lists per-reason rejection counts so that acceptance/rejection of each class is visible. Doors: the nine public entry points listed in the rule (with their source / transport variants) are the ones this crate version has; a new entry point creating a Manifest or ManifestContent would have to be added to c14_doors.rs by hand. Serde formats are modelled by serde_json and the 12 serde_tok transports; a format driving the Deserialize impl in yet another way (e.g. deserialize_any-only self-describing binary formats) is not modelled.",
+    technique="runtime oracle over an independent DER/BER + CMS encoder; per-case EE certificates (window, SIA/CRLDP/AIA names) tie the file list and the manifest interval to the signed object, every entry point handing out a ManifestContent (decode, views, re-encoding, serde transports, validate / validate_at, SignedObject::process) is held to the same laws; every door creating one from octets or a serde transport (take_from DER/BER, Manifest::decode strict/relaxed, SignedObject::decode + decode_content, Deserialize via serde_json and all serde_tok transports) is fed the same hostile manifests; ASan and Miri on the same workload; a further native stage on a build with the crate's compat feature",
     design_ref="DESIGN.md §4 C14",
 )
